@@ -264,6 +264,11 @@ impl DcpsDomainParticipant {
                             }
                         })
                         .collect();
+                    // An owner that has not written for a deadline period loses the instance, also
+                    // while samples of other writers (which are not presented) keep arriving
+                    data_reader
+                        .instance_ownership
+                        .retain(|x| now - x.last_received_time <= deadline);
                     for change_instance_handle in missed_instances {
                         data_reader
                             .instance_ownership
